@@ -436,6 +436,7 @@ type runner struct {
 	queuedN *node         // a 'Q' stage whose task was submitted and waits in the queue of the busy 1-worker pool
 	o       obs
 	failed  bool // some executed stage has failed or panicked so far
+	mainEnded bool // the goroutine that called pipeline.Execute has returned
 }
 
 const evTimeout = 3 * time.Second
@@ -656,6 +657,7 @@ func (r *runner) settleP(running int, patience time.Duration) (stalled bool) {
 				waitingQ = nil
 			}
 		case "maindone":
+			r.mainEnded = true
 			if running == 0 {
 				runningDone = true
 			}
@@ -750,7 +752,101 @@ func (r *runner) final() string {
 
 // run executes one pipeline case. sched == nil: goroutines are released in random order (rng);
 // otherwise in the given order.
+// burstMark in the list of used releases: every goroutine was released at once
+const burstMark = -1 << 30
+
 func runPipeline(c *core.Ctx, en *env, root *node, rng *rand.Rand, sched []int) (*runner, []int) {
+	return runPipelineB(c, en, root, rng, sched, false)
+}
+
+// burst opens every gate at once: all goroutines run freely, so the tails of completeStage
+// (Unlock → pending.Dec → CAS → callback) of different stages really race on the real code. Used with
+// trees whose final observation does not depend on the schedule. Ends when the callback has fired,
+// pipeline.Execute has returned and every registered stage was completed — or after evTimeout.
+func (r *runner) burst() {
+	for k, n := range r.blocked {
+		delete(r.blocked, k)
+		r.noteExecuted(n, k)
+	}
+	for _, n := range r.all {
+		select {
+		case n.gate <- struct{}{}:
+		default:
+		}
+	}
+	timer := time.NewTimer(evTimeout)
+	defer timer.Stop()
+	handle := func(e event) {
+		switch e.kind {
+		case "ident":
+			r.o.reg++
+		case "plan":
+			switch {
+			case e.n.out == 'l':
+				e.n.executed = true
+				r.failed = true
+				r.o.panicked = append(r.o.panicked, e.n)
+			case e.n.rej != 0:
+				r.failed = true
+				r.o.rejected = append(r.o.rejected, e.n)
+			case e.n.async:
+				e.n.thread = r.nextThr
+				r.nextThr++
+			}
+		case "gate":
+			r.noteExecuted(e.n, e.n.thread)
+		case "complete":
+			r.o.done++
+			e.n.ncomp++
+			if r.o.cb == 0 {
+				r.o.lastDone = e.n
+			}
+		case "callback":
+			r.o.cb++
+			r.o.cbErr = append(r.o.cbErr, e.err != nil)
+			if r.o.cb == 1 {
+				r.o.regAtCb, r.o.doneAtCb, r.o.failedAtCb = r.o.reg, r.o.done, r.failed
+			}
+		case "maindone":
+			r.mainEnded = true
+		}
+	}
+	for !(r.mainEnded && r.o.cb > 0 && r.o.done >= r.o.reg) {
+		select {
+		case e := <-r.ev:
+			handle(e)
+		case <-timer.C:
+			p, _ := r.state()
+			r.o.timeout = fmt.Sprintf("burst: after %v: callbacks %d, stages registered %d, completed %d, sm.pending %d, pipeline.Execute returned %v",
+				evTimeout, r.o.cb, r.o.reg, r.o.done, p, r.mainEnded)
+			return
+		}
+	}
+	// a second callback of a broken CAS, or a late completion, would follow at once
+	grace := time.After(300 * time.Microsecond)
+	for {
+		select {
+		case e := <-r.ev:
+			handle(e)
+			continue
+		case <-grace:
+		}
+		break
+	}
+}
+
+func (r *runner) noteExecuted(n *node, thread int) {
+	n.executed = true
+	if n.out != 'o' {
+		r.failed = true
+	}
+	if n.out == 'p' || n.out == 'n' {
+		r.o.panicked = append(r.o.panicked, n)
+		r.o.threadPanic[thread] = true
+	}
+}
+
+func runPipelineB(c *core.Ctx, en *env, root *node, rng *rand.Rand, sched []int, burst bool) (*runner, []int) {
 	all := number(root)
 	r := &runner{c: c, env: en, ctx: context.Background(), ev: make(chan event, 4096), all: all,
 		blocked: map[int]*node{}, nextThr: 1, done: make(chan struct{})}
@@ -780,6 +876,15 @@ func runPipeline(c *core.Ctx, en *env, root *node, rng *rand.Rand, sched []int) 
 	}()
 	c.Op("new "+tokens(root), func() string { r.settle(0); return r.status() }())
 	var used []int
+	if burst {
+		if r.o.timeout == "" {
+			r.burst()
+			c.Op("burst", r.status())
+		}
+		c.Op("end", r.final())
+		close(r.done)
+		return r, []int{burstMark}
+	}
 	// release: goroutine k leaves the gate in front of its stage's execution
 	release := func(k int) *node {
 		n := r.blocked[k]
@@ -942,6 +1047,10 @@ func trackables(root *node) string {
 func describe(root *node, used []int) string {
 	ss := make([]string, len(used))
 	for i, k := range used {
+		if k == burstMark {
+			ss[i] = "all goroutines released at once"
+			continue
+		}
 		if k < 0 {
 			ss[i] = fmt.Sprintf("cwin(%d,%d)", (-k-1)/1000, (-k-1)%1000)
 		} else {
@@ -972,6 +1081,14 @@ func (r *runner) oracle(c *core.Ctx, root *node, used []int, witness string) {
 	}
 	if strings.HasPrefix(o.timeout, "pending stayed") {
 		c.Fail("pending-is-not-started-minus-completed", what+": sm."+o.timeout+" (stages registered minus stages completed)")
+		return
+	}
+	if strings.HasPrefix(o.timeout, "burst:") {
+		k := "burst-stages-not-completed"
+		if o.cb == 0 {
+			k = "burst-no-callback"
+		}
+		c.Fail(k, what+": "+o.timeout)
 		return
 	}
 	if o.timeout != "" {
@@ -1190,8 +1307,25 @@ func (area) Run(c *core.Ctx) error {
 			c.NonTrivial()
 			continue
 		}
+		if j := i - len(fixed); j < len(hookFixed) {
+			runHookWitness(c, hookFixed[j])
+			continue
+		}
 		if i%10 == 9 {
 			runLeaf(c, rng)
+			continue
+		}
+		if i%50 == 7 {
+			// random order of 1-5 pooled stages, each Complete() hook panics with probability 1/3
+			var sb strings.Builder
+			for k, n := 0, 1+rng.Intn(5); k < n; k++ {
+				if rng.Intn(3) == 0 {
+					sb.WriteByte('p')
+				} else {
+					sb.WriteByte('o')
+				}
+			}
+			runHookWitness(c, sb.String())
 			continue
 		}
 		kind := genKind(0)
@@ -1207,9 +1341,24 @@ func (area) Run(c *core.Ctx) error {
 		default:
 			kind = genReject
 		}
-		root := genTree(rng, kind, maxNodes)
+		burst := rng.Intn(6) == 0
+		mn := maxNodes
+		if burst {
+			mn = 14 // wide trees: more tails of completeStage racing
+		}
+		root := genTree(rng, kind, mn)
+		if burst {
+			// every goroutine is released at once; only stage kinds that need no orchestration
+			preorder(root, func(n *node) {
+				n.queued, n.stopRace = false, false
+				if n.rej == 'C' {
+					n.rej = 'X'
+				}
+			})
+			c.Branch("burst-all-goroutines-released-at-once")
+		}
 		c.Branch([]string{"gen-no-panic", "gen-recoverable-panics", "gen-any-panic", "gen-lindb-shape", "gen-rejected-tasks"}[kind])
-		r, used := runPipeline(c, pool, root, rng, nil)
+		r, used := runPipelineB(c, pool, root, rng, nil, burst)
 		r.oracle(c, root, used, "")
 		if r.o.timeout != "" || len(r.o.vanished) > 0 {
 			timeouts++
